@@ -872,6 +872,8 @@ def gen_script(rng, world, dims):
             ent["out"] = {"kind": rng.choice(["exc", "assert"]),
                           "cls": rng.choice(EXC_CLASSES),
                           "msg": gen_message(rng, dims["hostile"])}
+            if dims.get("hook_interrupts") and rng.random() < 0.5:
+                ent["out"] = {"kind": "kbi"}      # the user's Ctrl-C arrives while this hook runs
         if dims.get("log_level_changes") and name in ("before_feature", "before_rule") and rng.random() < 0.3:
             ent["acts"].append({"a": "root_level", "level": rng.choice([0, 10, 30, 40, 50])})
         if dims["hook_skips"] and name in ("before_feature", "before_rule", "before_scenario") \
